@@ -890,6 +890,18 @@ fn identities(cfg: &Cfg, rep: &mut Report, h: u64, steps: usize) {
             let p: Result<IdentityProfile, Fail> = invoke(e, &c, "get_identity_profile", args!(e, accounts[x]));
             let codes: Option<Vec<u32>> = p.ok().map(|p| p.countries.iter().map(|c| match c.country { CountryRelation::Individual(IndividualCountryRelation::Residence(v)) => v, _ => u32::MAX }).collect());
             rep.check("ref", codes == ident.get(&x).map(|v| v.1.clone()), "C20/ref/identities/profile", || format!("A{x}: countries {codes:?} vs {:?}", ident.get(&x).map(|v| &v.1)));
+            // the list getter and every index answer the same sequence
+            let ge: Result<SVec<CountryData>, Fail> = invoke(e, &c, "get_country_data_entries", args!(e, accounts[x]));
+            let gcodes: Option<Vec<u32>> = ge.ok().map(|v| v.iter().map(|c| match c.country { CountryRelation::Individual(IndividualCountryRelation::Residence(v)) => v, _ => u32::MAX }).collect());
+            // (an account without identity has no entries: an empty list and a refusal both say so)
+            rep.check("ref", gcodes.clone().unwrap_or_default() == ident.get(&x).map(|v| v.1.clone()).unwrap_or_default(), "C20/ref/identities/country-data-entries", || format!("A{x}: get_country_data_entries {gcodes:?} vs {:?}", ident.get(&x).map(|v| &v.1)));
+            if let Some(v) = ident.get(&x) {
+                for (j, code) in v.1.iter().enumerate() {
+                    let g: Result<CountryData, Fail> = invoke(e, &c, "get_country_data", args!(e, accounts[x], j as u32));
+                    let gc = g.ok().map(|c| match c.country { CountryRelation::Individual(IndividualCountryRelation::Residence(v)) => v, _ => u32::MAX });
+                    rep.check("ref", gc == Some(*code), "C20/ref/identities/country-data-by-index", || format!("A{x}: get_country_data({j}) = {gc:?}, model {code}"));
+                }
+            }
             let have = ident.get(&x).map_or(0, |v| v.1.len()) as u32;
             let at: Result<CountryData, Fail> = invoke(e, &c, "get_country_data", args!(e, accounts[x], have));
             rep.check("ref", at.is_err(), "C20/ref/identities/country-index-len-answered", || format!("A{x}: get_country_data({have}) answered"));
